@@ -37,3 +37,29 @@ Definition dec_code (T: ty) (model: res (dval * bytes)) (impl: res (aval * bytes
   | Err e, Err e' => if err_eqb e e' then 0 else 1
   | _, _ => 1
   end.
+
+(* what a streaming client observed: number of underrun reports, then how it ended *)
+Inductive ioutcome := IStop (objs: list (aval * nat)) | IExhausted | IErr (e: err).
+
+Fixpoint count_under {A} (l: list (out A)) : nat :=
+  match l with OUnder :: r => S (count_under r) | _ => O end.
+Fixpoint final_out {A} (l: list (out A)) : option (res A * nat) :=
+  match l with [] => None | [ODone r p] => Some (r, p) | _ :: r => final_out r end.
+
+Fixpoint objs_eqb (T: ty) (m: list (dval * nat)) (i: list (aval * nat)) : bool :=
+  match m, i with
+  | [], [] => true
+  | (DV _ v, p) :: m', (a, q) :: i' =>
+      aval_eqb (norm_bad (abs T v)) (norm_bad a) && Nat.eqb p q && objs_eqb T m' i'
+  | _, _ => false
+  end.
+
+Definition drive_code (T: ty) (model: list (out (list (dval * nat)))) (n_under: nat) (impl: ioutcome) : N :=
+  match final_out model, impl with
+  | Some (Err EUnmodelled, _), _ => 2
+  | Some (Ok objs, _), IStop iobjs =>
+      if Nat.eqb (count_under model) n_under && objs_eqb T objs iobjs then 0 else 1
+  | Some (Err e, _), IErr e' => if Nat.eqb (count_under model) n_under && err_eqb e e' then 0 else 1
+  | None, IExhausted => if Nat.eqb (count_under model) n_under then 0 else 1
+  | _, _ => 1
+  end.
